@@ -24,14 +24,16 @@ for d in sorted(glob.glob("/verif/seeded/*/")):
     if pid in props:
         seeds.append(d.rstrip("/"))
 sd = run(["/verif/seedcheck.py", "--props=" + pid] + seeds) if seeds else {}
+rf = run(["/verif/refaccheck.py", "--props=" + pid])
 try:
     e = json.load(open(ev))
     e["coverage"]["selftest"] = {
         "mutants": mut, "behaviour_preserving_edits": eq,
+        "independent_refactorings": rf,
         "seeded_changes": {"evaluated": len(sd), "caught": sum(1 for v in sd.values() if v == "CAUGHT"), "detail": sd},
         "note": "informational: typed single-site edits and independently seeded changes applied through packages.Overlay; does not affect the verdict",
     }
     json.dump(e, open(ev, "w"), indent=1)
 except Exception as ex:
     print("thorough_extras: could not update evidence:", ex, file=sys.stderr)
-print("selftest: mutants", mut, "equivalents", eq, "seeds caught %d/%d" % (sum(1 for v in sd.values() if v == "CAUGHT"), len(sd)))
+print("selftest: refactorings", rf, "mutants", mut, "equivalents", eq, "seeds caught %d/%d" % (sum(1 for v in sd.values() if v == "CAUGHT"), len(sd)))
